@@ -6427,4 +6427,58 @@ _dbus_connection_get_address (DBusConnection *connection)
 }
 #endif
 
+#ifdef DBUS_VERIF
+/* Verification hook H2 (read-only): a canonical description of the parts of
+ * a DBusConnection's state that the public API does not show: queue lengths,
+ * the disconnect bookkeeping and the table of outstanding pending calls
+ * (sorted by serial). */
+dbus_bool_t
+_dbus_verif_connection_dump (DBusConnection *connection,
+                             DBusString     *out)
+{
+  DBusHashIter iter;
+  dbus_uint32_t serials[64];
+  int flags[64];
+  int n = 0, i, j;
+  dbus_bool_t ok = FALSE;
+
+  CONNECTION_LOCK (connection);
+  if (!_dbus_string_append_printf (out, "in=%d out=%d disc_link=%d disc_arrived=%d disc_processed=%d dispatch_acquired=%d io_acquired=%d borrowed=%d pending=[",
+                                   connection->n_incoming, connection->n_outgoing,
+                                   connection->disconnect_message_link != NULL,
+                                   (int) connection->disconnected_message_arrived,
+                                   (int) connection->disconnected_message_processed,
+                                   (int) connection->dispatch_acquired,
+                                   (int) connection->io_path_acquired,
+                                   connection->message_borrowed != NULL))
+    goto out;
+  _dbus_hash_iter_init (connection->pending_replies, &iter);
+  while (_dbus_hash_iter_next (&iter) && n < 64)
+    {
+      DBusPendingCall *pending = _dbus_hash_iter_get_value (&iter);
+      serials[n] = _dbus_pending_call_get_reply_serial_unlocked (pending);
+      flags[n] = (_dbus_pending_call_get_completed_unlocked (pending) ? 1 : 0) |
+                 (_dbus_pending_call_is_timeout_added_unlocked (pending) ? 2 : 0);
+      n++;
+    }
+  for (i = 0; i < n; i++)
+    for (j = i + 1; j < n; j++)
+      if (serials[j] < serials[i])
+        {
+          dbus_uint32_t ts = serials[i]; int tf = flags[i];
+          serials[i] = serials[j]; flags[i] = flags[j];
+          serials[j] = ts; flags[j] = tf;
+        }
+  for (i = 0; i < n; i++)
+    if (!_dbus_string_append_printf (out, "%u:%d,", serials[i], flags[i]))
+      goto out;
+  if (!_dbus_string_append (out, "]"))
+    goto out;
+  ok = TRUE;
+ out:
+  CONNECTION_UNLOCK (connection);
+  return ok;
+}
+#endif
+
 /** @} */
